@@ -11,6 +11,7 @@ from hypothesis import strategies as st
 
 import verif_fixtures as fx
 from vlib.core import PropertyViolation
+from vlib import worldops
 
 ID = 'C15'
 LEVEL = 'exploration'
@@ -108,6 +109,7 @@ def strategy():
         'driver': st.integers(0, 2).map(lambda k: 'dict' if k == 0 else 'file'),
         'key': st.integers(0, 2),
         'flaky': st.integers(0, 3),
+        'amp': worldops.size_amp(none=50, sizes=(64, 70, 127, 130, 260)),
         'processors': st.lists(item, max_size=4),
         'entities': st.lists(entity, max_size=5)})
 
@@ -153,6 +155,11 @@ def _run(case, tmp):
         return ('$handle{%s}' % path if as_file else res[path]), res[path], True
 
     as_file = case['driver'] == 'file'
+    # scale: the listed entities are repeated until the world has about `amp` of them (big levels)
+    all_entities = list(case['entities'])
+    if case.get('amp') and all_entities:
+        all_entities = (all_entities * (case['amp'] // len(all_entities) + 1))[:case['amp'] + 3]
+        facts['big_world'] += 1
     desc = {'processors': [], 'entities': []}
     expected_procs = []
     seen = set()
@@ -166,7 +173,7 @@ def _run(case, tmp):
         expected_procs.append(e)
     expected_entities = []
     used_ids = set()
-    for ei, ent in enumerate(case['entities']):
+    for ei, ent in enumerate(all_entities):
         eid = IDS[ent['id']]
         if eid is not None and eid in used_ids:
             eid = None
@@ -315,7 +322,7 @@ def _run(case, tmp):
             _d, e = build_item(it, 'verif_fixtures.' + tname, getattr(fx, tname), render, as_file, 'p%d' % len(eprocs))
             eprocs.append(e)
         used = set()
-        for ei, ent in enumerate(case['entities']):
+        for ei, ent in enumerate(all_entities):
             eid = IDS[ent['id']]
             if eid is not None and eid in used:
                 eid = None
